@@ -6,7 +6,7 @@ from .elgen import CHAN_POOL, Regs, marker_rle
 ID = "C14"
 ALLOWED_AXIOMS = ["ClassicalDedekindReals.sig_forall_dec", "ClassicalDedekindReals.sig_not_dec",
                   "FunctionalExtensionality.functional_extensionality_dep"]      # the real-number part (Props/C14n.v) only
-PROPS_FILES = ["C14", "C14n"]
+PROPS_FILES = ["C14", "C14n", "C15b"]
 T_GEN = ["OutputGuardsGen.v"]
 T_FILES = ["Generated/OutputGuardsGen", "Numeric/Rescale", "Numeric/GuardConstants", "Props/C14n"]
 
